@@ -41,13 +41,66 @@ def _is_impl_exc(o):
     return isinstance(o, dict) and "__impl_exception__" in o
 
 
+def _impl_chunk(chunk):
+    return [_impl_one(c) for c in chunk]
+
+
+CASE_TIMEOUT = 40  # seconds a single case may take on the real code before it counts as "does not terminate"
+
+
+_timeouts_seen = [0]
+
+
+def _one_with_timeout(ctx, case):
+    """run one case in its own process; a case that does not come back in time is an outcome of the real code
+    (after three such cases the patience per case drops, so that a check facing many hanging inputs still ends)"""
+    pool = ctx.Pool(1)
+    limit = CASE_TIMEOUT if _timeouts_seen[0] < 3 else 8
+    try:
+        r = pool.apply_async(_impl_one, (case,))
+        try:
+            return r.get(timeout=limit)
+        except multiprocessing.TimeoutError:
+            _timeouts_seen[0] += 1
+            return {"__impl_exception__": "Timeout", "message": f"the real code did not return within {limit} s", "trace": ""}
+    finally:
+        pool.terminate()
+        pool.join()
+
+
 def pmap(cases, workers):
-    if workers <= 1 or len(cases) < 4 * workers:
-        return [_impl_one(c) for c in cases]
+    """run impl on every case in worker processes. A chunk that does not come back within the chunk timeout is re-run
+    case by case, each in its own process with a per-case timeout, so that a hang in the real code (which no Python-level
+    alarm can interrupt, e.g. inside the regex engine) is reported for the case that causes it instead of stalling the check."""
+    if not cases:
+        return []
     ctx = multiprocessing.get_context("fork")
-    chunk = max(1, min(200, len(cases) // (workers * 4)))
-    with ctx.Pool(workers) as pool:
-        return pool.map(_impl_one, cases, chunksize=chunk)
+    workers = max(1, workers)
+    size = max(1, min(200, len(cases) // (workers * 4) or 1))
+    chunks = [cases[i : i + size] for i in range(0, len(cases), size)]
+    chunk_timeout = float(os.environ.get("VERIF_CHUNK_TIMEOUT", "150"))
+    results = [None] * len(chunks)
+    pool = ctx.Pool(workers)
+    try:
+        pending = [pool.apply_async(_impl_chunk, (ch,)) for ch in chunks]
+        hung = []
+        for i, r in enumerate(pending):
+            try:
+                results[i] = r.get(timeout=chunk_timeout)
+            except multiprocessing.TimeoutError:
+                hung.append(i)
+        if hung:
+            # whatever else finished in the meantime is kept
+            for i in list(hung):
+                if pending[i].ready():
+                    results[i] = pending[i].get()
+                    hung.remove(i)
+    finally:
+        pool.terminate()
+        pool.join()
+    for i in hung:
+        results[i] = [_one_with_timeout(ctx, c) for c in chunks[i]]
+    return [o for ch in results for o in ch]
 
 
 def run_model(prop, cases, impl_outs=None):
